@@ -309,7 +309,7 @@ func (s *fileLoopCursor) ReadAggDataNormal() (*record.Record, *comm.FileInfo, er
 			if e = s.initCurrAggCursor(file); e != nil {
 				return nil, nil, e
 			}
-			if s.index == len(s.ctx.readers.Orders)-1 && s.ctx.querySchema.Options().IsAscending() || (s.index == 0 && !s.ctx.querySchema.Options().IsAscending()) {
+			if s.index == len(s.ctx.readers.Orders)-1 {
 				s.currAggCursor.SetLastFile()
 			}
 
